@@ -5,6 +5,7 @@ open SophiaProofs.C13
 #print axioms single_graph_nodup
 #print axioms body_correct
 #print axioms graph_var_correct
+#print axioms ask_graph_var_correct
 #print axioms eval_correct_partial
 #print axioms ask_correct
 #print axioms slice_sound
@@ -16,10 +17,11 @@ open SophiaProofs.C13
 #print axioms spec_refuses
 #print axioms no_panic
 #print axioms exprOK_termlevel
+#print axioms or_and_tables
 #print axioms evalD_none
 #print axioms evalCorrectFull_refuted
-#print axioms dev_empty_named
 #print axioms dev_graph_prebind
 #print axioms dev_proj_leak
-#print axioms dev_or_strict
 #print axioms dev_ebv_illtyped
+#print axioms fixed_empty_named
+#print axioms fixed_or_strict
